@@ -335,6 +335,20 @@ func corrC09(c *corrCtx) {
 	// zero-tag profile and other hand-made corner cases
 	hd := iccHeader(r)
 	seeds = append(seeds, seed{"icc", append(hd[:], 0, 0, 0, 0)})
+	// description blocks that are the last bytes of the profile (nothing behind them to over-read into),
+	// alone and after other tags, both encodings
+	for k := 0; k < 4; k++ {
+		d := &iccDesc{header: iccHeader(r), share: map[int]int{}}
+		if k >= 2 {
+			d.tags = append(d.tags, iccTag{0x63707274, r.bytes(24)}, iccTag{0x77747074, r.bytes(20)})
+		}
+		if k%2 == 0 {
+			d.tags = append(d.tags, iccTag{0x64657363, textDescTag([]byte("Display P3"))})
+		} else {
+			d.tags = append(d.tags, iccTag{0x64657363, mlucTag([]mlucRec{{lang: [2]byte{'e', 'n'}, country: [2]byte{'U', 'S'}, text: randText(r, 9)}}, nil, map[int]int{}, 12, 0)})
+		}
+		seeds = append(seeds, seed{"icc", d.build()})
+	}
 	// (a) field matrix
 	perField := 10
 	if c.thorough() {
@@ -345,6 +359,21 @@ func corrC09(c *corrCtx) {
 			cur := getField(s.data, f)
 			vals := append([]uint64{}, boundaryVals...)
 			vals = append(vals, cur+1, cur-1, (1<<32)-cur, (1<<32)-cur-1, cur+4, cur*2)
+			// relational values: around the number of bytes actually present behind the field
+			rest := uint64(len(s.data) - f.off - f.width)
+			var rel []uint64
+			for k := -14; k <= 14; k++ {
+				if v := int64(rest) + int64(k); v >= 0 {
+					rel = append(rel, uint64(v))
+				}
+			}
+			if s.format == "icc" {
+				for _, v := range rel {
+					c09Case(c, "field-rel/"+s.format, s.format, setField(s.data, f, v))
+				}
+			} else if len(rel) > 0 {
+				vals = append(vals, rel[r.intn(len(rel))], rest, rest+1)
+			}
 			if !c.thorough() {
 				// a deterministic-per-seed sample of the matrix; always the extremes
 				for k := len(vals) - 1; k > 0; k-- {
